@@ -118,8 +118,13 @@ func (r *Recorder) Failed() bool {
 	return r.failed
 }
 
-// Record books one executed scenario. It returns the violations of the
-// recorder's own property (others are only counted).
+// Record books one executed scenario. It returns the violations that count for
+// the recorder's property: every oracle of a run states a clause of one of the
+// listed properties, and none of them fires on a tree where the properties
+// hold, so an oracle that the model attributes to another property (a response
+// served without a fetch is at once a matter of C01, C03, C04 and C06, say)
+// still fails the check under which the scenario was generated. The original
+// attribution is kept in the oracle name and counted.
 func (r *Recorder) Record(scenario interface{}, out *Outcome) []Viol {
 	r.mu.Lock()
 	defer r.mu.Unlock()
@@ -127,12 +132,11 @@ func (r *Recorder) Record(scenario interface{}, out *Outcome) []Viol {
 	for _, v := range out.Violations {
 		if v.Property == r.Property || v.Property == "" {
 			own = append(own, v)
-		} else if !r.failed {
-			r.foreign[v.Property+":"+v.Oracle]++
-			if os.Getenv("VERIF_DEBUG_FOREIGN") != "" && r.foreign[v.Property+":"+v.Oracle] == 1 {
-				raw, _ := json.Marshal(scenario)
-				fmt.Printf("FOREIGN %s/%s: %s\nSCENARIO %s\n", v.Property, v.Oracle, v.Msg, raw)
+		} else {
+			if !r.failed {
+				r.foreign[v.Property+":"+v.Oracle]++
 			}
+			own = append(own, Viol{Property: r.Property, Oracle: v.Property + "/" + v.Oracle, Msg: "[oracle of " + v.Property + "] " + v.Msg})
 		}
 	}
 	if r.failed {
